@@ -95,8 +95,12 @@ def case(rng: Any, ctx: Ctx, index: int) -> None:
         elif variant == 'reduce':
             v = op.reduce()
         elif variant == 'I' and dense.struct_eq(op.in_structure(), op.out_structure()) and rng.integers(3) == 0 \
+                and type(op).__name__ in ('DiagonalOperator', 'HomothetyOperator', 'BlockDiagonalOperator', 'QURotationOperator',
+                                          'IdentityOperator') \
                 and dense.class_names(op) <= {'DiagonalOperator', 'HomothetyOperator', 'BlockDiagonalOperator',
-                                              'CompositionOperator', 'QURotationOperator', 'IdentityOperator'}:
+                                              'QURotationOperator', 'IdentityOperator'}:
+            # closed-form inverses only: a solver-based inverse hands a copy of the operator to lineax, which strips
+            # the weak type of scalar factors such as the 1/3 of `A / 3` (DESIGN §7.2)
             v = op.I
         else:
             continue
